@@ -13,7 +13,8 @@
   device numbers and what the writer passes to chmod/mknod.
 
   `unpacking_creates_the_tree` carries this to the file system: `UnTar` onto the `LocalFS` writer
-  over the POSIX model of `Model/LocalFS.lean` creates exactly the tree, directory mtimes included.
+  over the POSIX model of `Model/LocalFS.lean` creates exactly the tree, directory mtimes and the
+  symbolic links' own mtimes included (`symlink_mtime_set_without_following`: the no-follow call).
 
   Modelled, not verified (exercised on disk by the harness as root: lstat/readlink/xattr/content
   snapshots, both digests, caidx+store, tar-stream input, gnu-tar/mtree output): `filepath.Walk`
@@ -98,9 +99,12 @@ example : Tree.WFList exRoot.path [exRoot.path] [Tree.dir exDir [Tree.leaf exFil
     path with its contents / target / device numbers, the archived owner and extended attributes
     (unless `noSameOwner`), the archived permission, set-id and sticky bits (unless
     `noSamePermissions`; set-id bits survive because `chown` comes before `chmod`): `LFS.attrOfRec`,
-    `LFS.linkAttrOfRec` for links, and the archived modification time set explicitly, *also on
-    directories that got children after they were created* (`finish` re-applies them; the defect D17
-    and its repair).  `hfit`: when owner and xattrs are restored, no symlink or device record carries a
+    `LFS.linkAttrOfRec` for links, and the archived modification time set explicitly (`LFS.mtimeOf`:
+    `none` when the archive records 0), *also on directories that got children after they were
+    created* (`finish` re-applies them; the defect D17 and its repair) *and on symbolic links*: a
+    link gets its own archived modification time through the no-follow call (`LFS.lchtimes`,
+    utimensat with AT_SYMLINK_NOFOLLOW — `symlink_mtime_set_without_following`), never the object it
+    points to.  `hfit`: when owner and xattrs are restored, no symlink or device record carries a
     `user.*` extended attribute — the kernel refuses those and `UnTar` fails
     (`unpacking_link_with_user_xattr_fails`).  Distinct xattr keys per record are part of `XattrsOK`. -/
 theorem unpacking_creates_the_tree (o : LFS.Opts) (root : List LFS.Name) (fs : LFS.FS) (r : FileRec)
@@ -124,6 +128,36 @@ theorem unpacking_link_with_user_xattr_fails (o : LFS.Opts) (root : List LFS.Nam
     (hx : ∃ kv ∈ m.xattrs, LFS.isUserXattr kv.1 = true) :
     ∃ f, LFS.createSymlink o root s name m target = .error f :=
   LFS.createSymlink_user_xattr_fails o root s name m target h hn hO hx
+
+/-- **A symbolic link's time stamp is set on the link, not through it.**  `LFS.lchtimes` is
+    `lchtimes(dst, n.MTime)` of `LocalFS.CreateSymlink` (utimensat with AT_SYMLINK_NOFOLLOW).  Whenever
+    the path — its last component not followed — names a symbolic link, the call succeeds, the link
+    object gets the modification time `t` (target and attributes kept), and every other object of the
+    file system, the one the link points to in particular, is what it was. -/
+theorem symlink_mtime_set_without_following (fs : LFS.FS) (p : List LFS.Name) (rp : LFS.RPath)
+    (tg : Bytes) (a : LFS.Attr) (m : Option Nat) (t : Nat)
+    (hr : LFS.resolve fs false p = .ok rp) (hg : fs.get rp = some (.symlink tg a m)) :
+    LFS.lchtimes fs p t = .ok (fs.set rp (.symlink tg a (some t))) ∧
+      ∀ q, q ≠ rp → (fs.set rp (.symlink tg a (some t))).get q = fs.get q :=
+  LFS.lchtimes_symlink t hr hg
+
+/-- a link `/l → f` and a file `/f` with mtime 3: the no-follow call stamps the link and the file keeps
+    its mtime; `os.Chtimes` on the same path would have stamped the file and left the link alone -/
+example :
+    LFS.AttrOrder.fsAfter (LFS.lchtimes LFS.AttrOrder.fsLink [[108]] 9) =
+      some [([[108]], .symlink [102] {} (some 9)), ([[102]], .file [97] {} (some 3))] ∧
+    LFS.AttrOrder.fsAfter (LFS.chtimes LFS.AttrOrder.fsLink [[108]] 9) =
+      some [([[102]], .file [97] {} (some 9)), ([[108]], .symlink [102] {} none)] :=
+  LFS.AttrOrder.lchtimes_sets_link_not_target
+
+/-- the same by evaluation: the hypotheses of `symlink_mtime_set_without_following` hold of this file
+    system, and the file's object is untouched -/
+example :
+    LFS.resolve LFS.AttrOrder.fsLink false [[108]] = .ok [[108]] ∧
+    LFS.AttrOrder.fsLink.get [[108]] = some (.symlink [102] {} none) ∧
+    ((LFS.AttrOrder.fsLink.set [[108]] (.symlink [102] {} (some 9))).get [[102]]) =
+      some (.file [97] {} (some 3)) := by
+  refine ⟨by rfl, by decide, by decide⟩
 
 /-- the order of the calls in `setPerms` matters: `chmod` 04755 followed by `chown` loses the set-user-ID
     bit of a regular file, `chown` followed by `chmod` (what localfs.go does) keeps it -/
